@@ -126,6 +126,7 @@ type advScenario struct {
 	NoStop    bool       `json:"no_stop,omitempty"`       // never cancel: Run must end on its own (fatal error scenarios)
 	StateDelayNS int64   `json:"state_delay_ns,omitempty"`
 	Extra     []advCfg   `json:"extra_interfaces,omitempty"` // further interfaces known to metrics / debug API (eth1, eth2, ...)
+	Before    []string   `json:"interfaces_before,omitempty"` // non-advertising interfaces configured before eth0: "monitor" or "idle" (named pre0, pre1, ...)
 }
 
 type advDelivered struct {
@@ -176,6 +177,22 @@ func vkMsg(e advEvent) ndp.Message {
 			if err != nil {
 				panic("verif: generated RA does not encode: " + err.Error())
 			}
+			// overlong prefix lengths cannot be marshalled but can be received: patch the wire bytes
+			// (4 bytes ICMPv6 header, 12 bytes RA, then options: type, length/8, body)
+			var lens []uint8
+			for _, o := range e.RA.Opts {
+				if o.Kind == "prefix" {
+					lens = append(lens, o.RawLen)
+				}
+			}
+			for i, k := 16, 0; i+2 < len(b) && b[i+1] != 0; i += int(b[i+1]) * 8 {
+				if b[i] == 3 {
+					if k < len(lens) && lens[k] > 128 {
+						b[i+2] = lens[k]
+					}
+					k++
+				}
+			}
 			m, err := ndp.ParseMessage(b)
 			if err != nil {
 				panic("verif: generated RA does not decode: " + err.Error())
@@ -199,7 +216,11 @@ func runAdvertiser(t *testing.T, sc advScenario, hook func(w *simWorld, a *Adver
 	sort.SliceStable(sc.Events, func(i, j int) bool { return sc.Events[i].AtNS < sc.Events[j].AtNS })
 	res.Leaked, res.Panic = bubble(t, func() {
 		cfg := sc.Cfg.iface("eth0")
-		all := []config.Interface{cfg}
+		var all []config.Interface
+		for i, kind := range sc.Before {
+			all = append(all, config.Interface{Name: fmt.Sprintf("pre%d", i), Monitor: kind == "monitor"})
+		}
+		all = append(all, cfg)
 		for i, x := range sc.Extra {
 			all = append(all, x.iface(fmt.Sprintf("eth%d", i+1)))
 		}
